@@ -8,6 +8,7 @@ package main
 // whose value is taken, go-routine bodies and deferred closures start with the empty set.
 
 import (
+	"fmt"
 	"go/types"
 	"sort"
 	"strings"
@@ -256,6 +257,11 @@ func (li *LockInfo) translate(c *Call, callee *ssa.Function, ls LockSet) LockSet
 				out[b.calleeRoot] = mode
 			} else if strings.HasPrefix(k, b.callerAP+".") {
 				out[b.calleeRoot+k[len(b.callerAP):]] = mode
+			} else if i := strings.LastIndex(k, "."); i > 0 && strings.HasPrefix(b.callerAP, k[:i]+".") {
+				// the argument is a part of the object whose mutex is held (w := &m.warmup while m.mu is held): in the
+				// callee that mutex is "the enclosing object's", one "^" per level between the part and the owner
+				up := strings.Count(b.callerAP[i+1:], ".") + 1
+				out[b.calleeRoot+strings.Repeat(".^", up)+k[i:]] = mode
 			}
 		}
 	}
@@ -371,4 +377,96 @@ func isSyncType(t types.Type, names ...string) bool {
 		}
 	}
 	return false
+}
+
+// lockAcq: a mutex a function takes, named relative to its receiver (selector path from the receiver to the mutex).
+type lockAcq struct {
+	sel  []string
+	excl bool
+	at   ssa.Instruction
+}
+
+// acquiresOnReceiver lists the mutexes reachable from g's receiver that g takes - directly or through module methods it
+// calls on receiver-rooted paths (to the given depth).
+func (p *Prog) acquiresOnReceiver(g *ssa.Function, depth int, seen map[*ssa.Function]bool) []lockAcq {
+	if g == nil || g.Blocks == nil || len(g.Params) == 0 || g.Signature.Recv() == nil || seen[g] {
+		return nil
+	}
+	seen[g] = true
+	defer delete(seen, g)
+	recv := g.Params[0]
+	var out []lockAcq
+	allInstrs(g, func(ins ssa.Instruction) {
+		call, ok := ins.(*ssa.Call)
+		if !ok {
+			return
+		}
+		c := p.CallOf(call)
+		if c == nil || c.Recv == nil {
+			return
+		}
+		ap := AccessPath(c.Recv)
+		if ap.Root != ssa.Value(recv) {
+			return
+		}
+		if op, _ := p.lockOpOf(c); op == opLock || op == opRLock {
+			out = append(out, lockAcq{sel: append([]string(nil), ap.Sel...), excl: op == opLock, at: ins})
+			return
+		}
+		if depth > 0 && c.Static != nil && p.InModule(c.Static) {
+			for _, a := range p.acquiresOnReceiver(c.Static, depth-1, seen) {
+				out = append(out, lockAcq{sel: append(append([]string(nil), ap.Sel...), a.sel...), excl: a.excl, at: ins})
+			}
+		}
+	})
+	return out
+}
+
+// selfDeadlocks: call sites (and lock operations) that take a sync mutex the calling goroutine already holds on every
+// path reaching them. Go's mutexes are not re-entrant: Lock after Lock, Lock after RLock and RLock after Lock on the
+// same mutex block for ever (RLock after RLock is left alone: it only blocks when a writer is queued in between).
+func (p *Prog) selfDeadlocks(locks *LockInfo) (int, []string) {
+	var bad []string
+	n := 0
+	for _, f := range p.Funcs {
+		if p.PkgOf(f) == "" || strings.HasPrefix(p.PkgOf(f), "examples") {
+			continue
+		}
+		allInstrs(f, func(ins ssa.Instruction) {
+			call, ok := ins.(*ssa.Call)
+			if !ok {
+				return
+			}
+			c := p.CallOf(call)
+			if c == nil || c.Recv == nil {
+				return
+			}
+			held := locks.Held(ins)
+			if len(held) == 0 {
+				return
+			}
+			if op, k := p.lockOpOf(c); op == opLock || op == opRLock {
+				n++
+				if ex, ok := held[k]; ok && (ex || op == opLock) {
+					bad = append(bad, fmt.Sprintf("%s: %s takes %s, which it already holds: the goroutine blocks for ever", p.At(ins), p.Key(f), k))
+				}
+				return
+			}
+			if c.Static == nil || !p.InModule(c.Static) {
+				return
+			}
+			ap := AccessPath(c.Recv)
+			for _, a := range p.acquiresOnReceiver(c.Static, 2, map[*ssa.Function]bool{}) {
+				n++
+				k := rootName(ap.Root)
+				for _, s := range append(append([]string(nil), ap.Sel...), a.sel...) {
+					k += "." + s
+				}
+				if ex, ok := held[k]; ok && (ex || a.excl) {
+					bad = append(bad, fmt.Sprintf("%s: %s calls %s while holding %s, and %s takes that mutex again (%s): the goroutine blocks for ever, and with it every caller that needs the mutex", p.At(ins), p.Key(f), p.Key(c.Static), k, p.Key(c.Static), p.At(a.at)))
+				}
+			}
+		})
+	}
+	return n, bad
 }
